@@ -257,9 +257,9 @@ def make_clock_multiplier(output_clock_rate: int, input_clock_rate: int) -> Gene
     Returns:
         int: The multiplier
     """
-    multiple = 1.0
+    numerator, denominator = 1, 1
     if output_clock_rate and input_clock_rate:
-        multiple = output_clock_rate / input_clock_rate
+        numerator, denominator = output_clock_rate, input_clock_rate
         #------------------------------------------------------------------------
         # Test divisibility on the rates themselves: the float quotient is not
         # exact (1 / (1 / 49) != 49), which refused valid pairs such as 24:1176.
@@ -267,11 +267,16 @@ def make_clock_multiplier(output_clock_rate: int, input_clock_rate: int) -> Gene
         if output_clock_rate % input_clock_rate != 0 and input_clock_rate % output_clock_rate != 0:
             raise ClockException("Cannot sync output device (clock rates must integer multiples of each other)")
 
-    pos = 1
+    #------------------------------------------------------------------------
+    # The phase is counted in units of 1/input_clock_rate of an output tick,
+    # so that it stays exact. A float phase accumulates rounding error
+    # (at 24:480, a tick is emitted one step early after 2.25e8 steps).
+    #------------------------------------------------------------------------
+    pos = denominator
     while True:
         rv = 0
-        pos += multiple
-        while round(pos, 8) > 1:
-            pos -= 1
+        pos += numerator
+        while pos > denominator:
+            pos -= denominator
             rv += 1
         yield rv
